@@ -199,6 +199,61 @@ def save_replay(prop, sub, case):
     return path
 
 
+def run_fuzz(prop, target, scratch, extra, overlay, execs):
+    """Count-bounded native fuzz campaign. The target puts its own oracle inside and writes a
+    replay file into VERIF_FUZZ_OUT before failing."""
+    pkgdir = os.path.join(ROOT, "checks", prop.lower())
+    cache = os.path.join(scratch, "fuzzcache-" + target)
+    outdir = os.path.join(scratch, "fuzzout-" + target)
+    os.makedirs(outdir, exist_ok=True)
+    crashdir = os.path.join(pkgdir, "testdata", "fuzz", target)
+    before = set(os.listdir(crashdir)) if os.path.isdir(crashdir) else set()
+    e = child_env(prop, "thorough", 1, 0, 1, "", os.path.join(scratch, "fuzz.crumb"), extra)
+    e.pop("VERIF_OUT")
+    e["VERIF_FUZZ_OUT"] = outdir
+    cmd = ["go", "test", "-tags", "verif", "-vet=off", "-run", "^$", "-fuzz", "^%s$" % target,
+           "-fuzztime", "%dx" % execs, "-test.fuzzcachedir", cache]
+    if overlay:
+        cmd += ["-overlay", os.path.abspath(overlay)]
+    cmd.append(".")
+    t0 = time.time()
+    try:
+        r = run(cmd, env=e, cwd=pkgdir, timeout=3600)
+        out, rc = r.stdout, r.returncode
+    except subprocess.TimeoutExpired as ex:
+        out, rc = (ex.stdout or ""), 0
+        if isinstance(out, bytes):
+            out = out.decode(errors="replace")
+    m = re.findall(r"execs: (\d+)", out)
+    n = int(m[-1]) if m else 0
+    interesting = re.findall(r"new interesting: (\d+)", out)
+    res = dict(evaluations=n, distinct_nontrivial=0, exhaustive=False, requested=execs, executed=n,
+               rule="go test -fuzz=%s, %d executions requested, oracle inside the target; coverage-guided, not seedable; "
+                    "'new interesting' inputs found: %s" % (target, execs, interesting[-1] if interesting else "?"),
+               classes={}, excluded_known={}, samples=[], notes=["wall %.0f s" % (time.time() - t0)], violations=[])
+    # new crashers: the target wrote a replay for each failing input
+    for name in sorted(os.listdir(outdir)):
+        try:
+            with open(os.path.join(outdir, name)) as f:
+                v = json.load(f)
+            res["violations"].append(v)
+        except Exception:
+            pass
+    after = set(os.listdir(crashdir)) if os.path.isdir(crashdir) else set()
+    for name in after - before:
+        os.remove(os.path.join(crashdir, name))  # the replay file is the reproducible unit
+    try:
+        os.removedirs(crashdir)
+    except OSError:
+        pass
+    open_sigs = {f["sig"] for f in load_findings(prop)}
+    res["violations"] = [v for v in res["violations"] if v.get("sig") not in open_sigs]
+    if rc != 0 and not res["violations"]:
+        if "FAIL" in out and "--- FAIL" in out:
+            res["infra"] = "fuzz target %s failed without writing a replay:\n%s" % (target, out[-2000:])
+    return res
+
+
 def main():
     ap = argparse.ArgumentParser()
     ap.add_argument("prop", nargs="?")
@@ -384,6 +439,18 @@ def drive(prop, cfg, tier, seed, binary, extra, scratch, args, t0, vmerge):
             path = save_replay(prop, v["sub"], v["case"])
             violations.append((v["sub"], v["sig"], v["msg"], path))
 
+    # --- native coverage-guided fuzzing (thorough tier only; cannot be seeded) -------
+    fuzz_subs = {}
+    if tier == "thorough" and cfg.get("fuzz") and not violations:
+        for target in cfg["fuzz"]:
+            res = run_fuzz(prop, target, scratch, extra, args.overlay, cfg.get("fuzz_execs", 3000000))
+            fuzz_subs["fuzz:" + target] = res
+            for v in res.pop("violations"):
+                path = save_replay(prop, v["sub"], v["case"])
+                violations.append((v["sub"], v["sig"], v["msg"], path))
+            if res.get("infra"):
+                infra.append(res["infra"])
+
     # --- evidence ---------------------------------------------------------------
     subs = {}
     assumptions = []
@@ -442,6 +509,10 @@ def drive(prop, cfg, tier, seed, binary, extra, scratch, args, t0, vmerge):
             samples.append({"subcheck": name, "case": x})
         if d["requested"] and d["executed"] < d["requested"] and not violations and not d["excluded_known"]:
             infra.append("sub-check %s executed %d of %d requested cases" % (name, d["executed"], d["requested"]))
+    for name, res in fuzz_subs.items():
+        subchecks[name] = res
+        total_evals += res["evaluations"]
+        rules.append("%s: %s" % (name, res["rule"]))
     wall = time.time() - t0
     ev = {
         "property_id": prop, "tier": tier, "seed": seed, "level": "exploration",
